@@ -140,7 +140,11 @@ func (r *funcVals) index(ins ssa.Instruction) {
 			}
 		}
 	case *ssa.MapUpdate:
-		r.elem[r.id(x.Value.Type())] = append(r.elem[r.id(x.Value.Type())], x.Value)
+		et := x.Value.Type()
+		if mt, ok := x.Map.Type().Underlying().(*types.Map); ok {
+			et = mt.Elem()
+		}
+		r.elem[r.id(et)] = append(r.elem[r.id(et)], x.Value)
 	}
 	// a function used as a value
 	var cc *ssa.CallCommon
@@ -188,9 +192,11 @@ func (r *funcVals) indexStores() {
 					k := [2]int{r.id(deref(a.X.Type())), a.Field}
 					r.field[k] = append(r.field[k], st.Val)
 				case *ssa.IndexAddr:
-					r.elem[r.id(st.Val.Type())] = append(r.elem[r.id(st.Val.Type())], st.Val)
+					et := deref(a.Type()) // the element type of the container, not the type of the value stored
+					r.elem[r.id(et)] = append(r.elem[r.id(et)], st.Val)
 				default:
-					r.ptr[r.id(st.Val.Type())] = append(r.ptr[r.id(st.Val.Type())], st.Val)
+					pt := deref(st.Addr.Type())
+					r.ptr[r.id(pt)] = append(r.ptr[r.id(pt)], st.Val)
 				}
 			}
 		}
@@ -586,13 +592,10 @@ func (r *funcVals) escapesModule(fn *ssa.Function) string {
 func argFor(c ssa.CallInstruction, fn *ssa.Function, idx int) (ssa.Value, bool) {
 	args := c.Common().Args
 	off := len(fn.Params) - len(args)
-	if off != 0 && !(off == 1 && fn.Signature.Recv() != nil && c.Common().StaticCallee() == nil) {
-		if fn.Signature.Variadic() || off < 0 {
-			return nil, false
-		}
+	if off == 1 && !(fn.Signature.Recv() != nil && c.Common().StaticCallee() == nil) {
 		return nil, false
 	}
-	if idx-off < 0 || idx-off >= len(args) {
+	if off < 0 || off > 1 || idx-off < 0 || idx-off >= len(args) {
 		return nil, false
 	}
 	return args[idx-off], true
